@@ -451,7 +451,7 @@ class Interp(object):
         ent[1].update(ent[2])
     self.trail = []
 
-  def explore(self, scenario, max_paths=4000):
+  def explore(self, scenario, max_paths=4000, partial_unsupported=False):
     """Run scenario(interp) on every feasible path.  Returns list of Path."""
     work = [[]]
     out = []
@@ -468,6 +468,12 @@ class Interp(object):
         outcome, value = "raise", e
       except PathAbort:
         outcome = None
+      except Unsupported as e:
+        # outside the fragment on THIS path only: the other paths are still explored (a violation found and replayed
+        # on one of them stands; without one, every clause of the case stays undecided - see contract.run_case)
+        if not partial_unsupported:
+          raise
+        outcome, value = "unsupported", str(e)
       finally:
         self.rollback()
       work.extend(self.alts)
@@ -1294,6 +1300,37 @@ class Interp(object):
       raise Unsupported("bitwise operator on non-integers")
     raise Unsupported("operator %s" % type(op).__name__)
 
+  def int_view(self, e):
+    """real_to_int that also accepts pow2(k) leaves when k >= 0 holds on the current path (forking on k >= 0 when
+    the path does not decide it; the k < 0 side is outside the fragment)."""
+    r = real_to_int(e)
+    if r is not None:
+      return r
+    if not z3.is_app(e):
+      return None
+    k = e.decl().kind()
+    if e.decl().eq(POW2):
+      n = e.arg(0)
+      if self.entails(n >= 0) or self.truth(SBool(n >= 0)):
+        self.assume(POW2(n) == z3.ToReal(IPOW2(n)))
+        return IPOW2(n)
+      raise Unsupported("2 ** (pow2 of a negative exponent)")
+    if k == z3.Z3_OP_ITE:
+      a, b = self.int_view(e.arg(1)), self.int_view(e.arg(2))
+      return None if a is None or b is None else z3.If(e.arg(0), a, b)
+    if k in (z3.Z3_OP_ADD, z3.Z3_OP_MUL, z3.Z3_OP_SUB):
+      cs = [self.int_view(c) for c in e.children()]
+      if any(c is None for c in cs):
+        return None
+      r = cs[0]
+      for c in cs[1:]:
+        r = r + c if k == z3.Z3_OP_ADD else (r * c if k == z3.Z3_OP_MUL else r - c)
+      return r
+    if k == z3.Z3_OP_UMINUS:
+      a = self.int_view(e.arg(0))
+      return None if a is None else -a
+    return None
+
   def pow2(self, n_expr, pytype="float"):
     return SNum(POW2(n_expr), pytype)
 
@@ -1318,7 +1355,10 @@ class Interp(object):
           # d/dx 2^e(x) = ln2 * 2^e * e'(x); e is integer-valued and piecewise constant here
           g = b.grad * POW2(ei) * z3.RealVal("6931471805599453/10000000000000000")
         return SNum(POW2(ei), "float" if pt != "tensor" else "tensor", g)
-      raise Unsupported("2 ** real-valued symbolic exponent")
+      ei = self.int_view(z3.simplify(eb))
+      if ei is not None:
+        return SNum(POW2(ei), "float" if pt != "tensor" else "tensor")
+      raise Unsupported("2 ** real-valued symbolic exponent: %s" % str(z3.simplify(eb))[:200])
     if not is_sym(b) and isinstance(b, int) and 0 <= b <= 4:
       r = 1
       for _ in range(b):
